@@ -54,6 +54,25 @@ let () =
                (if is_final st then 1 else 0)
                (if ok then "" else " event=" ^ ew.(k))
            | _ -> print_endline "error bad header")
+        | [hd; ps; fs; evs] ->
+          (* ereplay <n> <R> <W> <bmax> ; <positions> ; <w>:<pos>:<kind> ... ; <events>  (injected write failures)
+             prints: eok cnt=<k1,k2,...> bad=<p1,p2,...>  |  erej *)
+          (match words hd with
+           | ["ereplay"; n; r; w; bm] ->
+             let p = { pn = nat_of_int (int_of_string n); pR = nat_of_int (int_of_string r);
+                       pW = nat_of_int (int_of_string w);
+                       poss = tmap (fun x -> nat_of_int (int_of_string x)) (words ps);
+                       bmax = nat_of_int (int_of_string bm) } in
+             let fl = tmap (fun x -> match String.split_on_char ':' x with
+                                     | [a; b; c] -> ((nat_of_int (int_of_string a), nat_of_int (int_of_string b)), nat_of_int (int_of_string c))
+                                     | _ -> failwith "fault") (words fs) in
+             let ls = tmap (fun x -> fst (parse_event x)) (words evs) in
+             (match ereplay_all p fl ls with
+              | Some (c, b) ->
+                let pr l = String.concat "," (List.map (fun x -> string_of_int (int_of_nat x)) l) in
+                Printf.printf "eok cnt=%s bad=%s\n" (pr c) (pr b)
+              | None -> print_endline "erej")
+           | _ -> print_endline "error bad header")
         | _ -> print_endline "error bad line"
       with Failure m -> print_endline ("error " ^ m) | Invalid_argument m -> print_endline ("error " ^ m));
       flush stdout
